@@ -2476,7 +2476,8 @@ impl Connection {
 
         // Transmit CONNECTION_CLOSE if necessary
         if let State::Closed(_) = self.state {
-            self.close = remote == self.path.remote;
+            // Don't cancel a CONNECTION_CLOSE that's already pending, e.g. due to `close()`
+            self.close |= remote == self.path.remote;
         }
     }
 
